@@ -253,6 +253,67 @@ theorem C14_setup_refused (s' : State) (R : List Prod)
     · exact absurd hf (by simp)
     · exact hno
 
+/-! ## `eups remove -i` -/
+
+/-- **Interactive removal removes exactly what was answered yes to** — whatever is typed, however the loop ends (all
+products asked, `q`, the answers running out, a refusal by `undeclare`): the state is the one before minus the
+declarations, tags and directories of the products reported as removed, these are among the products the command
+collected, in that order, and every other declaration, tag and directory is untouched. -/
+theorem C14_interactive_exact (force : Bool) : ∀ (ps : List Prod) (s : State) (d : Dflt) (answers : List Ans),
+    (destroyLoopI force s ps d answers).2.1 = destroy s (destroyLoopI force s ps d answers).2.2 ∧
+      (destroyLoopI force s ps d answers).2.2.Sublist ps := by
+  intro ps
+  induction ps with
+  | nil => intro s d answers; simp [destroyLoopI, destroy_nil]
+  | cons p ps ih =>
+    intro s d answers
+    unfold destroyLoopI
+    split
+    · simp [destroy_nil]
+    · simp [destroy_nil]
+    · rename_i d' as' _
+      obtain ⟨h1, h2⟩ := ih s d' as'
+      exact ⟨h1, List.Sublist.cons _ h2⟩
+    · rename_i d' as' _
+      split
+      · simp [destroy_nil]
+      · split
+        · simp [destroy_nil]
+        · obtain ⟨h1, h2⟩ := ih (destroy s [p]) d' as'
+          simp only
+          refine ⟨?_, List.Sublist.cons₂ _ h2⟩
+          rw [h1, destroy_destroy]
+
+/-- a product answered `n` stays: answering `n` to everything removes nothing -/
+theorem C14_interactive_all_no (force : Bool) : ∀ (ps : List Prod) (s : State) (d : Dflt) (answers : List Ans),
+    d ≠ .bang → answers = List.replicate ps.length Ans.n → destroyLoopI force s ps d answers = (.ok, s, []) := by
+  intro ps
+  induction ps with
+  | nil => intro s d answers _ _; simp [destroyLoopI]
+  | cons p ps ih =>
+    intro s d answers hd ha
+    subst ha
+    cases d with
+    | bang => exact absurd rfl hd
+    | y => simp only [List.length_cons, List.replicate_succ, destroyLoopI, ask]; exact ih s .n _ (by simp) rfl
+    | n => simp only [List.length_cons, List.replicate_succ, destroyLoopI, ask]; exact ih s .n _ (by simp) rfl
+
+/-- `!` (yes to all) makes the rest of the loop the loop without `-i` -/
+theorem C14_interactive_bang (force : Bool) : ∀ (ps : List Prod) (s : State) (answers : List Ans),
+    (destroyLoopI force s ps .bang answers).1 = (destroyLoop force s ps).1 ∧
+      (destroyLoopI force s ps .bang answers).2.1 = (destroyLoop force s ps).2 := by
+  intro ps
+  induction ps with
+  | nil => intro s answers; simp [destroyLoopI, destroyLoop]
+  | cons p ps ih =>
+    intro s answers
+    simp only [destroyLoopI, ask, destroyLoop]
+    split
+    · simp
+    · split
+      · simp
+      · exact ih (destroy s [p]) answers
+
 /-! ## the `-t TAG` forms of the command line (`RemoveCmd.execute`) -/
 
 /-- `eups remove -t TAG product` is `eups remove product <the version carrying TAG>`; without such a version
